@@ -98,15 +98,14 @@ static void rnode_free(struct rnode *rnode)
 static int uc_len(char *s)
 {
 	int c = (unsigned char) s[0];
+	int n, i;
 	if (~c & 0xc0)		/* ASCII or invalid */
 		return c > 0;
-	if (~c & 0x20)
-		return 2;
-	if (~c & 0x10)
-		return 3;
-	if (~c & 0x08)
-		return 4;
-	return 1;
+	n = ~c & 0x20 ? 2 : (~c & 0x10 ? 3 : (~c & 0x08 ? 4 : 1));
+	for (i = 1; i < n; i++)	/* a character cut short by the end of the string */
+		if (!s[i])
+			return i;
+	return n;
 }
 
 static int uc_dec(char *s)
